@@ -107,6 +107,9 @@ class Sim:
         self.steps = 0
         self.switches = 0
         self.branchings = 0
+        self.flip_bits = ()
+        self.nflips = 0
+        self.flips_taken = 0
         self.active = False
         self.aborting = False
         self.verdict = None  # None | 'deadlock' | 'horizon' | 'steps' | 'leak:deadlock' | 'leak:horizon'
@@ -306,6 +309,16 @@ class Sim:
         me.what = what
         self._reschedule(me)
 
+    def flip(self):
+        """k-th binary decision that is not a thread choice (so far: expiry-vs-release races of timed lock waits)"""
+        i = self.nflips
+        self.nflips += 1
+        bits = self.flip_bits
+        r = bool(bits[i]) if i < len(bits) else False
+        if r:
+            self.flips_taken += 1
+        return r
+
     def block_until(self, pred, deadline, what='', positive=False):
         """Returns True if pred became true, False if deadline expired."""
         me = cur()
@@ -369,6 +382,9 @@ class Sim:
 # ---------------------------------------------------------------- hybrid primitives
 
 
+CASE_STATS = {'flip_points': 0, 'flips_taken': 0}  # accumulated by run_sim, read and reset per case by the shard
+
+
 class HLock:
     __slots__ = ('_l', '__weakref__')
 
@@ -395,6 +411,11 @@ class HLock:
             ok = sim.block_until(
                 lambda: not locked(), deadline, what='lock', positive=(deadline is not None and timeout > 0)
             )
+            if not ok and not locked() and sim.flip():
+                # The wait expired while the lock was held, and the lock has been released since (at the same virtual instant or
+                # during a stall). A real timed acquire (sem_clockwait) reports failure in that order and success in the opposite
+                # order, so both outcomes exist: the schedule's `flips` bits choose (default: the release won).
+                return False
             if self._l.acquire(False):
                 return True
             if not ok:
